@@ -163,7 +163,8 @@ def r101(an, rep, collapse, expand, fmt, is_lt, lim):
     def line_set(pred):
         out = set()
         for l in ldom:
-            if ev(pred, Item(line_offset=5, bytecode_offset=6 if is_lt else 0), Item(line_offset=l, bytecode_offset=0 if is_lt else 6)):
+            # the remainder of a split delta has the sign of the delta
+            if ev(pred, Item(line_offset=5 if l >= 0 else -5, bytecode_offset=6 if is_lt else 0), Item(line_offset=l, bytecode_offset=0 if is_lt else 6)):
                 out.add(l)
         return out
 
@@ -194,6 +195,18 @@ def r101(an, rep, collapse, expand, fmt, is_lt, lim):
             f"collapse_items merges {sorted(set(zero_merges))[:2]}: expand_items never emits that as a split (its loops are strict, the remainder is non-zero), so a "
             f"real zero entry that CPython's assembler wrote after a full continuation entry is swallowed and the table does not re-encode byte for byte" if zero_merges
             else "an entry with a zero remainder after a boundary entry is kept as an entry of its own", config=fmt)
+    # the pieces of a split line delta all have the sign of the delta (assemble_lnotab: `ncodes = ldelta / 127`, the rest has the same sign): an entry of the
+    # OPPOSITE sign after a +127 / -128 (-127) entry is an entry of its own (`def f(a=1, b=2,` + 127 newlines + ` c=(3, 4)): pass` gives (0,127)(0,-127))
+    wrong_sign = []
+    for prev_l, cur_l in ((lim["max_line"], -5), (lim["min_line"], 5)):
+        for pr in (p1, p2):
+            if ev(pr, Item(line_offset=cur_l, bytecode_offset=6 if is_lt else 0), Item(line_offset=prev_l, bytecode_offset=0 if is_lt else 6)):
+                wrong_sign.append((prev_l, cur_l))
+    rep.add("R10.1", f"an entry of the opposite sign is not the continuation of a split line delta [{fmt}]", not wrong_sign, w,
+            "continuation entries are only recognised with the sign of the entry they continue" if not wrong_sign else
+            f"[{fmt}] an entry with line delta {wrong_sign[0][1]} after an entry with line delta {wrong_sign[0][0]} is merged into it as if it continued a split jump; CPython's "
+            f"assembler only splits into pieces of one sign, so this is a genuine entry (compiler output: `def f(a=1, b=2,` + 127 newlines + ` c=(3, 4)): pass` has "
+            f"co_lnotab (0,127)(0,-127), re-encoded as (0,0))", config=fmt)
     if is_lt:
         # CPython continues a range WITHOUT a line with (rest, -128), a range with a line with (rest, 0): a (n, 0) entry after a full
         # no-line entry starts a new range on the line before the gap
